@@ -27,6 +27,11 @@ def _free_walk(t, lid):
     stack = [t]
     while stack:
         x = stack.pop()
+        if isinstance(x, Dim):
+            for at, _ in x.lin:
+                if isinstance(at, tuple):
+                    stack.extend(at)
+            continue
         if not isinstance(x, Term):
             if isinstance(x, tuple):
                 stack.extend(x)
